@@ -70,6 +70,16 @@ ATTR_EXPRS = ["r.zz.filename == 'a'", "r.zz.filename != 'a'", "r.zz.year < 3", "
 def table():
     """(expr, engine, expected truth, known-key or None)"""
     rows = []
+    # the missing operand passed through lower()/upper() (they hand non-text through unchanged)
+    for op in OPS:
+        for h in ("lower", "upper"):
+            for e, eng_ok in ((f"{h}(r.zz) {op} 'a'", "ic"), (f"'a' {op} {h}(r.zz)", "ic"), (f"{h}(r.zz) {op} r.s", "ic"), (f"{h}(r.zz) {op} {h}(r.yy)", "ic")):
+                for eng in eng_ok:
+                    if op == "not in" and eng == "c":
+                        continue
+                    if op in ("in", "not in") and eng == "c" and e.startswith(f"{h}(r.zz)"):
+                        continue  # compiled '<missing> in <text>': the known finding K1 (asserted on the bare field)
+                    rows.append((e, eng, False, "helper-wrapped", op, "left"))
     for e in ATTR_EXPRS:
         for eng in "ic":
             rows.append((e, eng, False, "attr", "attr", "left"))
